@@ -12,6 +12,27 @@ import sys
 import zlib
 
 # ---------------------------------------------------------------------------
+# CPU-time limit (robust on a loaded machine: ITIMER_VIRTUAL counts this process's user CPU time only)
+
+import contextlib
+import signal
+
+
+@contextlib.contextmanager
+def cpu_limit(seconds, exc_type):
+    def handler(signum, frame):
+        raise exc_type("no result within %ss of CPU time" % seconds)
+
+    old = signal.signal(signal.SIGVTALRM, handler)
+    signal.setitimer(signal.ITIMER_VIRTUAL, seconds)
+    try:
+        yield
+    finally:
+        signal.setitimer(signal.ITIMER_VIRTUAL, 0)
+        signal.signal(signal.SIGVTALRM, old)
+
+
+# ---------------------------------------------------------------------------
 # reference container parsing
 
 
